@@ -17,6 +17,8 @@ ROUTING_OPTS: dict[str, dict[str, Any]] = {
     "contype": {},
     "field": {"field_constraints": True},
     "annotated": {"field_constraints": True, "use_annotated": True},
+    # not a constraint routing: the field-name resolver renames camel-case members too (used by focused documents)
+    "snake": {"snake_case_field": True},
 }
 
 
